@@ -12,7 +12,7 @@ func init() {
 	Register(&Property{ID: "C16", Run: runC16, Strata: strataC16})
 }
 
-var c16Classes = []string{"valid", "unsupported_fc", "out_of_range", "short_body", "bytecount_mismatch"}
+var c16Classes = []string{"valid", "unsupported_fc", "out_of_range", "short_body", "bytecount_mismatch", "length_extreme"}
 
 // strata: first draws of genC16: nconn-1, tid base, subject nreq pick, then per request: class, handler mode, fc index.
 func strataC16(tier string) [][]int32 {
@@ -117,6 +117,16 @@ func genC16Req(t *Tape, class string, fcIdx int, unit byte, tid uint16) SrvReq {
 				pdu = full[:2]
 			}
 		}
+	case "length_extreme":
+		// the length field claims far more than is (ever) sent: the server has to wait for the rest, not answer
+		pdu = GenLegalReq(t, fc).PDU()
+		if len(pdu) > 5 {
+			pdu = pdu[:5]
+		}
+		r.Frame = FrameTCP(tid, unit, pdu)
+		l := []int{0xFFFF, 0xFFFE, 0xFFFD, 0xFFFC, 0xFFFB, 0xFFFA, 0x8000, 0x7FFF, 300, 261, 255, 254}[t.Choose(12)]
+		r.Frame[4], r.Frame[5] = byte(l>>8), byte(l)
+		return r
 	case "bytecount_mismatch":
 		switch fc {
 		case 15, 16, 23:
@@ -152,7 +162,7 @@ func genC16(t *Tape) (*SrvScenario, int) {
 			tid := uint16(tidBase + ci*16 + ri)
 			var r SrvReq
 			if ci == subject {
-				class := c16Classes[t.Pick(3, 2, 2, 2, 2)]
+				class := c16Classes[t.Pick(6, 4, 4, 4, 4, 1)]
 				mode := HandlerMode(t.Pick(4, 2, 1, 2, 2, 1))
 				r = genC16Req(t, class, t.Choose(len(AllFCs)), byte(1+ci), tid)
 				r.Mode = mode
@@ -166,6 +176,12 @@ func genC16(t *Tape) (*SrvScenario, int) {
 				}
 			}
 			plan.Reqs = append(plan.Reqs, r)
+			if r.Class == "length_extreme" {
+				// nothing can follow on this connection: the server is (rightly) waiting for the announced bytes
+				plan.Writes = append(plan.Writes, len(r.Frame))
+				plan.Gaps = append(plan.Gaps, 0)
+				break
+			}
 			if len(r.Frame) > 1 && t.Chance(1, 3) {
 				// the frame arrives in two pieces (the cut inside the header or inside the body)
 				c := 1 + t.Choose(len(r.Frame)-1)
@@ -180,6 +196,20 @@ func genC16(t *Tape) (*SrvScenario, int) {
 			}
 		}
 		sc.Conns = append(sc.Conns, plan)
+	}
+	if nconn > 1 && t.Chance(1, 6) {
+		// the subject connection dies in the middle of a frame; the others connect only afterwards
+		sp := &sc.Conns[subject]
+		sp.Reqs = sp.Reqs[:1]
+		k := 1 + t.Choose(len(sp.Reqs[0].Frame)-1)
+		sp.Reqs[0].Frame = sp.Reqs[0].Frame[:k]
+		sp.Reqs[0].Class = "partial_then_close"
+		sp.Writes, sp.Gaps, sp.AbortMid, sp.Pipelined = []int{k}, []time.Duration{0}, true, true
+		for ci := range sc.Conns {
+			if ci != subject {
+				sc.Conns[ci].StartDelay = time.Duration(10+t.Choose(60)) * time.Millisecond
+			}
+		}
 	}
 	sc.ReadTimeout = []time.Duration{0, time.Millisecond, 20 * time.Millisecond}[t.Choose(3)]
 	sc.ReplyTimeout = 300 * time.Millisecond
